@@ -5,7 +5,10 @@ from common import guarded, Timeout
 # terminals whose regex-preferred match is the longest member prefix and whose language is closed under the
 # truncation procedure of dynamic_complete (outside finding F6's region); (spelling, python regex)
 TERM_POOL = [('"a"', 'a'), ('"b"', 'b'), ('"c"', 'c'), ('"ab"', 'ab'), ('/a+/', 'a+'), ('/[ab]+/', '[ab]+'), ('/b+c?/', 'b+c?'), ('"aa"', 'aa'), ('/c+/', 'c+'), ('/(ab)+/', '(ab)+')]
-IGNORE_POOL = [('" "', ' ', [' ']), ('/ +/', ' +', [' ', '  ']), ('"-"', '-', ['-']), ('/-=+/', '-=+', ['-=', '-==']), ('/ ?=/', ' ?=', ['=', ' ='])]
+IGNORE_POOL = [('" "', ' ', [' ']), ('/ +/', ' +', [' ', '  ']), ('"-"', '-', ['-']), ('/-=+/', '-=+', ['-=', '-==']), ('/ ?=/', ' ?=', ['=', ' =']),
+               # the longer of two ignores that match at one position swallows the beginning of a token: some sentences are reachable only through the shorter one
+               ('/ a/', ' a', [' a']), ('/-b/', '-b', ['-b'])]
+IGNORE_PAIRS = [(0, 5), (2, 6), (1, 5)]
 
 
 def gen_cfg(rng, regex_terms=True, max_nts=4, ignore_p=0.45, shapes=True, aliases=True):
@@ -40,7 +43,9 @@ def gen_cfg(rng, regex_terms=True, max_nts=4, ignore_p=0.45, shapes=True, aliase
     for n, (sp, _rx) in zip(tnames, chosen):
         lines.append('%s: %s' % (n, sp))
     if rng.random() < ignore_p:
-        for k, ig in enumerate(rng.sample(IGNORE_POOL, 2 if rng.random() < 0.35 else 1)):
+        two = rng.random() < 0.35
+        picked = [IGNORE_POOL[i] for i in rng.choice(IGNORE_PAIRS)] if two and rng.random() < 0.3 else rng.sample(IGNORE_POOL, 2 if two else 1)
+        for k, ig in enumerate(picked):
             lines.append('WS%d: %s' % (k, ig[0]))
             lines.append('%%ignore WS%d' % k)
     return '\n'.join(lines) + '\n'
